@@ -58,8 +58,11 @@ structure Seg where
   numChars : Nat := 0
   defaultOriginal : Int := 0
   bufSize : Nat := 1               -- `m_bufSize`: slots are allocated in blocks of this many
+  dir : Nat := 0                   -- `m_dir`: bit 0 the requested direction, bit 6 "the slots are currently reversed"
   deriving Repr
 
+/-- `Segment::currdir()`: `((m_dir >> 6) ^ m_dir) & 1` – the direction the slots are in at the moment -/
+def Seg.currdir (s : Seg) : Bool := ((s.dir >>> 6) ^^^ s.dir) % 2 = 1
 def Seg.setFirst (s : Seg) (v : Option Nat) : Seg := { s with first := v }
 def Seg.setLast (s : Seg) (v : Option Nat) : Seg := { s with last := v }
 def Seg.addGlyphs (s : Seg) (d : Int) : Seg := { s with numGlyphs := s.numGlyphs + d }
@@ -197,6 +200,7 @@ structure Ctx where
   classes : Array (List Nat) := #[]   -- the linear (output) classes of the Silf class map
   gattr : Array (Array Int) := #[]    -- glyph attributes: `gattr[gid][attr]`
   gadv : Array Int := #[]             -- advance width of each glyph (hmtx), design units
+  aBidi : Nat := 3                    -- `Silf::aBidi()`: the glyph attribute that holds the bidi class
   -- ghost state mirroring the GRAPHITE2_VERIF hook of Pass::runGraphite: the worst rule-loop count and its bound, number of reports
   vIter : Nat := 0
   vBound : Nat := 0
